@@ -58,10 +58,9 @@ def run(ctx):
     else:
         n_inst, n_ok, n_val, failing = judge_classes(ctx, res, seed, per_class)
         st = res['stats']
-        ctx.count('classes', n_inst, [(k, r['n'], r['ok'], len(r['fail'])) for k, r in res['results'].items()],
+        ctx.count('classes', n_inst, res.get('digests', []),
                   classes=len(res['results']), instances_ok=n_ok, xsd_validated=n_val, classes_with_failures=len(failing),
                   histogram={k: v for k, v in sorted(st.items())})
-        ctx.distinct |= {f'classes:{seed}:{i}' for i in range(n_ok)}
         ctx.sample({'stream': 'classes', 'seed': seed, 'per_class': per_class,
                     'one_class': next(iter(res['results'].items()))})
 
@@ -104,7 +103,7 @@ def run(ctx):
              'parsed, read, compared by a canonical dump (recursive over _props, current-timestamp excluded), written again '
              '(bytes identical), validated against the bundled XSD and checked for implied/default values of absent '
              'members; props: one descriptor per case (all descriptor classes in rotation), update_xml_value + '
-             'get_py_value_from_node vs XmlStruct.Model.run_prop; distinct = distinct instances that passed / distinct '
+             'get_py_value_from_node vs XmlStruct.Model.run_prop; distinct = distinct serialised instances that passed (sha1 of the bytes) / distinct '
              'descriptor cases',
         assumptions=['scalars are restricted to values whose text form is exact today (timestamps / durations multiples of '
                      '125 ms, decimals without exponent or trailing zeros): converter exactness is C18',
